@@ -336,6 +336,7 @@ func checkC12(w *World, r *Report) {
 	checkCallers(binder, 0)
 	r.floor("call sites of the macro choke point", n4, 3)
 	checkParserDoesNotEvaluate(w, r)
+	checkImportsRenderLibrary(w, r)
 }
 
 // macroArgsOrigin: "" if unknown; else a description of an accepted origin.
@@ -826,4 +827,71 @@ func checkParserDoesNotEvaluate(w *World, r *Report) {
 	if bad == 0 {
 		r.ok("R12.6", "(*Parser).Parse", "the parser does not evaluate expressions", "-", fmt.Sprintf("none of the %d functions reachable from Parse calls EvaluateExpression or a Node's Render", n), true)
 	}
+}
+
+// checkImportsRenderLibrary — R12.7: `import … as m` and `from … import` learn a library's macros
+// the same way — by rendering the library into a context of its own and reading that context's
+// macro table.  Both renderers reach a successful return only through a Render of the loaded
+// template's nodes.  Collecting macros another way for one of the two forms (scanning top-level
+// nodes) misses macros defined under an `if`, or handed on by the library's own imports, for
+// that form only.
+func checkImportsRenderLibrary(w *World, r *Report) {
+	n := 0
+	for _, tn := range []string{"ImportNode", "FromImportNode"} {
+		m := w.tryMethod(tn, "Render")
+		if m == nil {
+			continue
+		}
+		fn := w.ssaFunc(m)
+		n++
+		rendersLib := func(in ssa.Instruction) bool {
+			c, ok := in.(ssa.CallInstruction)
+			if !ok {
+				return false
+			}
+			if _, isDefer := in.(*ssa.Defer); isDefer {
+				return false
+			}
+			cc := c.Common()
+			if cc.IsInvoke() && cc.Method.Name() == "Render" {
+				if _, ok := fieldLoad(unspill(cc.Value), "Template", "nodes"); ok {
+					return true
+				}
+			}
+			// a helper of the package that does it on every successful path
+			if g := cc.StaticCallee(); g != nil && w.inPkg(g) && g != fn && len(g.Blocks) > 0 {
+				found := false
+				instrsOf(g, func(x ssa.Instruction) {
+					if c2, ok := x.(ssa.CallInstruction); ok && c2.Common().IsInvoke() && c2.Common().Method.Name() == "Render" {
+						if _, ok := fieldLoad(unspill(c2.Common().Value), "Template", "nodes"); ok {
+							found = true
+						}
+					}
+				})
+				return found
+			}
+			return false
+		}
+		construct := "macros of the library are collected by rendering it"
+		bad := ""
+		instrsOf(fn, func(in ssa.Instruction) {
+			ret, ok := in.(*ssa.Return)
+			if !ok || bad != "" {
+				return
+			}
+			res := retResults(ret)
+			if len(res) == 0 || errorSurelyNonNil(res[len(res)-1], ret.Block()) {
+				return
+			}
+			if b, path := existsPathAvoiding(fn, in, rendersLib, nil); b {
+				bad = w.posOf(ret.Pos()) + " (path " + strings.Join(path, " → ") + ")"
+			}
+		})
+		if bad == "" {
+			r.ok("R12.7", ssaName(fn), construct, w.posOf(fn.Pos()), "no nil-error return is reachable without a Render of the loaded template's nodes", true)
+		} else {
+			r.bad("R12.7", ssaName(fn), construct, w.posOf(fn.Pos()), "a successful return at "+bad+" is reachable without rendering the library: its macros are gathered some other way than for the sibling directive, so the same macro is reachable through one form of import and missing (or another macro) through the other")
+		}
+	}
+	r.Counts["import directives checked for rendering the library"] = n
 }
